@@ -263,7 +263,8 @@ def _(v):
     c0 = {"A": 2 * u.mM, "B": 1 * u.uM, "C": 0 * u.M}
     _k1, _k2, _k3, _A, _B = 3e3 / 60, 0.5 / 3600, 7e-6, 2e-3, 1e-6
     ref = [-2 * _k1 * _A ** 2 + 2 * _k2 * _B, _k1 * _A ** 2 - _k2 * _B, _k3]
-    regs = {"SI": dict(SI_base_registry), "dm_min_umol": dict(SI_base_registry, length=u.decimetre, time=u.minute, amount=u.micromole), "cm_h": dict(SI_base_registry, length=u.centimetre, time=u.hour)}
+    regs = {"SI": dict(SI_base_registry), "dm_min_umol": dict(SI_base_registry, length=u.decimetre, time=u.minute, amount=u.micromole), "cm_h": dict(SI_base_registry, length=u.centimetre, time=u.hour),
+            "scaled_base_units": dict(SI_base_registry, length=0.1 * u.metre, time=60 * u.second)}
     bad = []
     for name, reg in regs.items():
         try:
@@ -381,7 +382,8 @@ def _(v):
     from chempy.kinetics.rates import MassAction, Eyring
     from chempy.units import SI_base_registry, default_units as u, to_unitless
     warnings.simplefilter("ignore")
-    regs = {"SI": dict(SI_base_registry), "dm_min_umol": dict(SI_base_registry, length=u.decimetre, time=u.minute, amount=u.micromole), "cm_h": dict(SI_base_registry, length=u.centimetre, time=u.hour)}
+    regs = {"SI": dict(SI_base_registry), "dm_min_umol": dict(SI_base_registry, length=u.decimetre, time=u.minute, amount=u.micromole), "cm_h": dict(SI_base_registry, length=u.centimetre, time=u.hour),
+            "scaled_base_units": dict(SI_base_registry, length=0.1 * u.metre, time=60 * u.second)}
     k1, k2 = 3.0 / u.mM / u.minute, 0.5 / u.hour
     rsys = ReactionSystem([Reaction({"A": 2}, {"B": 1}, MassAction([k1], unique_keys=["k1"])), Reaction({"B": 1}, {"A": 2}, MassAction([k2], unique_keys=["k2"]))], "A B")
     c0 = {"A": 2 * u.mM, "B": 1 * u.uM}
